@@ -169,7 +169,8 @@ PROPS["C02"] = dict(
     level="proof",
     lean_module="RefmtProofs.Props.C02",
     theorems=["Refmt.C02.emitHead_eq_head", "Refmt.C02.head_valid", "Refmt.C02.head_shortest", "Refmt.C02.enc_eq_spec",
-              "Refmt.C02.roundtrip_norm", "Refmt.C02.roundtrip_partial"],
+              "Refmt.C02.roundtrip_norm", "Refmt.C02.roundtrip_partial", "Refmt.Facts.cbor_constants", "Refmt.Facts.head_thresholds"],
+    extra_modules=["RefmtProofs.Facts"],
     streams=[dict(name="cborenc", gen="cborenc", rule="cborenc")],
     title="CBOR encoding is lossless and shortest-form",
     claim="Theorems (all token trees, any size/nesting): the encoder model accepts flatten v with done exactly on the last token and "
@@ -184,7 +185,9 @@ PROPS["C02"] = dict(
 PROPS["C04"] = dict(
     level="proof",
     lean_module="RefmtProofs.Props.C04",
-    theorems=["Refmt.C04.refine", "Refmt.C04.half_exact", "Refmt.C04.negint_exact", "Refmt.C04.parse_consumes", "Refmt.C04.prefix_free"],
+    theorems=["Refmt.C04.refine", "Refmt.C04.half_exact", "Refmt.C04.negint_exact", "Refmt.C04.parse_consumes", "Refmt.C04.prefix_free",
+              "Refmt.Facts.cbor_constants", "Refmt.Facts.caps_checked_before_allocation"],
+    extra_modules=["RefmtProofs.Facts"],
     streams=[dict(name="cbordec", gen="cbordec", rule="cbordec")],
     title="CBOR decoder accepts exactly well-formed CBOR",
     claim="Theorems (every byte string, both option settings): the decoder machine model yields exactly the tokens of the item the "
@@ -203,7 +206,8 @@ PROPS["C03"] = dict(
     lean_module="RefmtProofs.Props.C03",
     theorems=["Refmt.C03.escape_unquote", "Refmt.C03.escape_is_body", "Refmt.C03.enc_accepts", "Refmt.C03.pretty_is_compact",
               "Refmt.C03.enc_valid_partial", "Refmt.C03.roundtrip_partial", "Refmt.C03.enc_valid_iff_floatTextOk",
-              "Refmt.C03.roundtrip_of_floatTextOk"],
+              "Refmt.C03.roundtrip_of_floatTextOk", "Refmt.Facts.json_float_cutoffs"],
+    extra_modules=["RefmtProofs.Facts"],
     level_note="Trusted: Lean kernel + audited axioms; the hand-written model tied by the correspondence harness; Go stdlib as modelled. "
                "enc_valid and roundtrip carry one explicit hypothesis, FloatsOk (every float token's text, as produced by the model's exact "
                "big-number re-implementation of strconv.AppendFloat, is a complete RFC 8259 number that the decoder types): "
@@ -537,7 +541,7 @@ def rule_hist(body, I, M):
             prop_ok, why = False, "%s bytes left in the stream after reading every item back" % rest
     if not corr_ok and not why:
         why = "implementation and model differ"
-    return dict(corr_ok=corr_ok, prop_ok=prop_ok, nontrivial=(";" in i or "|" in i), bucket=body.split(" ")[0], why=why)
+    return dict(corr_ok=corr_ok, prop_ok=prop_ok, nontrivial=(";" in i or "|" in i or body.startswith("race ")), bucket=body.split(" ")[0], why=why)
 RULES["hist"] = rule_hist
 
 PROPS["C17"] = dict(
@@ -593,4 +597,25 @@ PROPS["C06"] = dict(
               "target types (untyped, maps, slices, fixed arrays, structs, pointers, unions, tagged types, unmappable types) x 5 atlases, and "
               "every decoder-to-encoder pairing; per call: recover, token-step count (cap 2n+2), runtime.MemStats.TotalAlloc with the GC off "
               "(cap 2*32MiB + 1MiB + 16KiB*n); class and step count compared with the model",
+)
+
+PROPS["C18"] = dict(
+    level="other", lean_module="RefmtProofs.Props.C18",
+    theorems=["Refmt.C18.no_shared_writes", "Refmt.C18.noninterference", "Refmt.C18.schedule_irrelevant"],
+    explanation="Partial by nature: the Go memory model and scheduler are outside any executable model. Decided by (1) a kernel-checked "
+                "non-interference theorem for systems whose steps only read the shared component, (2) a fact regenerated from the SSA of "
+                "/repo's working tree on every run - no store to package-level state outside init functions and no store to Atlas structures "
+                "outside the builder functions - whose emptiness is a proof obligation (Facts.no_shared_writes), and (3) the race detector "
+                "as runtime monitor over concurrent workloads whose results are compared with sequential execution.",
+    level_note="Trusted: Lean kernel; the SSA-based footprint extractor (tools/extract: which functions count as builders is a fixed list); "
+               "the Go race detector; that the object layer's Go code has the read-only-shared shape the model functions have.",
+    technique="Lean 4 non-interference theorem + regenerated SSA write-set obligation + race-detector monitored concurrent workloads",
+    streams=[dict(name="race", gen="race", rule="hist", binary="harness-race", timeout=3000)],
+    title="concurrent use with a shared Atlas is race- and interference-free",
+    claim="Non-interference theorem (every interleaving gives each worker its sequential outputs when steps only read the shared part) + "
+          "regenerated fact that refmt never writes shared state after construction + race-detector runs of N goroutines sharing one "
+          "atlas set, every result compared with sequential execution. The memory-model part is monitored, not proved.",
+    rule_text="N goroutines (2 .. 4 x cores) x mixed marshal / unmarshal / clone jobs over zoo types in both formats, each worker with its "
+              "own machinery, all sharing the atlases (every entry kind) and read-only inputs, under several GOMAXPROCS settings, built "
+              "with the Go race detector (halt on first report); every worker's result compared with sequential execution",
 )
